@@ -74,7 +74,7 @@ def plan(seed, n_ops, sizes=(3, 4, 5, 6, 7, 8), with_tokens=True):
             do({"op": "lit", "pos": ser.pos_str(p)})
         for ps in _road_rich(rng, size, 8):
             do({"op": "lit", "pos": ps})
-    weights = [("move", 46), ("winner", 14), ("allmoves", 4), ("format", 10), ("parse", 3), ("tpos", 6), ("encode", 6 if with_tokens else 0), ("variants", 2), ("copy", 3)]
+    weights = [("move", 46), ("winner", 14), ("allmoves", 4), ("format", 10), ("parse", 3), ("tpos", 6), ("encode", 6 if with_tokens else 0), ("variants", 2), ("copy", 3), ("sameboard", 3)]
     kinds = [k for k, w in weights for _ in range(w)]
     while len(ops) < n_ops:
         live = ex.live()
@@ -156,6 +156,19 @@ def plan(seed, n_ops, sizes=(3, 4, 5, 6, 7, 8), with_tokens=True):
             do(op)
         elif k == "copy":
             do({"op": "copy", "obj": slot, "how": rng.choice(["pickle", "deepcopy"])})
+        elif k == "sameboard":
+            # another position value over the SAME board list (only the ply differs: the other side
+            # is to move), then a move tried on each of the two
+            do({"op": "sameboard", "obj": slot, "dply": rng.choice([1, 1, -1, 2])})
+            twin = ex.out[-1].get("slot")
+            if twin is not None and ex.objs[twin] is not None:
+                for who in (slot, twin, slot):
+                    try:
+                        ms = list(ex.objs[who].all_moves())
+                    except Exception:
+                        ms = []
+                    if ms:
+                        do({"op": "move", "obj": who, "move": ser.move_str(rng.choice(ms))})
         elif k == "tpos":
             do({"op": "tpos", "obj": slot, "k": rng.randrange(8)})
         elif k == "encode":
@@ -276,7 +289,7 @@ class Executor:
         obj = self.objs[i] if 0 <= i < len(self.objs) else None
         if obj is None:
             rec["skipped"] = True
-            if k in ("move", "tpos", "parse", "encode", "copy"):
+            if k in ("move", "tpos", "parse", "encode", "copy", "sameboard"):
                 rec["slot"] = self._slot(None, [])
             self.out.append(rec)
             return rec
@@ -319,6 +332,19 @@ class Executor:
                 rec["impl"] = "crash " + type(e).__name__
                 q = None
             rec["slot"] = self._slot(q, lin | {"copy"}, cfg_here)
+        elif k == "sameboard":
+            import attrs
+
+            q = None
+            try:
+                q = attrs.evolve(obj, ply=obj.ply + int(op.get("dply", 1)))
+                rec["impl"] = "ok " + ser.pos_str(q)
+                t = self.texts[i].split(" ")
+                t[5] = str(int(t[5]) + int(op.get("dply", 1)))
+                rec["want"] = "ok " + " ".join(t)
+            except Exception as e:
+                rec["impl"] = "crash " + type(e).__name__
+            rec["slot"] = self._slot(q, lin | {"sameboard"}, None)
         elif k == "variants":
             S = self._symmetry()
             try:
@@ -674,7 +700,7 @@ def _deps_closed(ops, keep):
     new_ops = []
     old_slot = new_slot = 0
     for i, op in enumerate(ops):
-        creates = op["op"] in ("new", "lit", "move", "tpos", "parse", "encode", "copy")
+        creates = op["op"] in ("new", "lit", "move", "tpos", "parse", "encode", "copy", "sameboard")
         uses = op.get("obj")
         ok = keep[i] and (uses is None or uses in slot_of)
         if ok:
